@@ -38,13 +38,13 @@ try:
     for t in tests:
         rel = os.path.relpath(t, wt)
         if rel not in base:
-            cmd = f"ip link set lo up; cd {pr} && HOME={env['HOME']} PYTHONPATH={pr} /venv/bin/python -m pytest -q -p no:cacheprovider --timeout=600 {rel} 2>&1 | tail -3"
+            cmd = f"ip link set lo up; ip route add default dev lo; cd {pr} && HOME={env['HOME']} PYTHONPATH={pr} /venv/bin/python -m pytest -q -p no:cacheprovider --timeout=600 {rel} 2>&1 | tail -3"
             p0 = subprocess.run(["unshare", "-rn", "sh", "-c", cmd], capture_output=True, text=True, timeout=3000)
             base[rel] = p0.stdout.strip().splitlines()[-1] if p0.stdout.strip() else p0.stderr[-200:]
             json.dump(base, open(bfile, "w"), indent=1)
     res["tests_pristine_baseline"] = {os.path.relpath(t, wt): base[os.path.relpath(t, wt)] for t in tests}
     for t in tests:
-        cmd = f"ip link set lo up; cd {wt} && HOME={env['HOME']} PYTHONPATH={wt} /venv/bin/python -m pytest -q -p no:cacheprovider --timeout=600 {t} 2>&1 | tail -3"
+        cmd = f"ip link set lo up; ip route add default dev lo; cd {wt} && HOME={env['HOME']} PYTHONPATH={wt} /venv/bin/python -m pytest -q -p no:cacheprovider --timeout=600 {t} 2>&1 | tail -3"
         p = subprocess.run(["unshare", "-rn", "sh", "-c", cmd], capture_output=True, text=True, timeout=3000)
         tr[os.path.relpath(t, wt)] = p.stdout.strip().splitlines()[-1] if p.stdout.strip() else p.stderr[-200:]
     res["tests_with_patch"] = tr
